@@ -18,10 +18,12 @@ import (
 	"log/slog"
 	"os"
 	"path/filepath"
+	"regexp"
 	"runtime"
 	"sort"
 	"strconv"
 	"strings"
+	"sync"
 	"syscall"
 	"time"
 	"unsafe"
@@ -556,7 +558,6 @@ func c13ClipKey(k string) string {
 type c13Hang struct {
 	where    string // function the goroutine is stuck in
 	evidence string
-	killed   bool
 }
 
 type c13Ret struct {
@@ -571,7 +572,10 @@ func c13CallTrampoline(f func() ([]byte, error), ch chan<- c13Ret) {
 }
 
 type c13SpinSample struct {
+	at        time.Time
 	inCompare bool
+	runnable  bool
+	zeroRead  bool // the stack shows os.(*File).Read with a zero-length buffer
 	frames    string
 	fd        int
 	pos       int64
@@ -580,21 +584,30 @@ type c13SpinSample struct {
 }
 
 func c13Sample(target string) c13SpinSample {
-	s := c13SpinSample{fd: -1, pos: -1, syscr: -1}
+	s := c13SpinSample{at: time.Now(), fd: -1, pos: -1, syscr: -1}
 	buf := make([]byte, 1<<20)
 	buf = buf[:runtime.Stack(buf, true)]
 	for _, g := range strings.Split(string(buf), "\n\n") {
-		if strings.Contains(g, "c13CallTrampoline") {
-			s.inCompare = strings.Contains(g, "ctlog.compareFile(")
-			var fr []string
-			for _, l := range strings.Split(g, "\n") {
-				if !strings.HasPrefix(l, "\t") && strings.Contains(l, "(") && len(fr) < 8 {
-					fr = append(fr, strings.TrimSpace(l[:strings.LastIndex(l, "(")]))
-				}
-			}
-			s.frames = strings.Join(fr, " < ")
-			break
+		if !strings.Contains(g, "c13CallTrampoline") {
+			continue
 		}
+		s.inCompare = strings.Contains(g, "ctlog.compareFile(")
+		head, _, _ := strings.Cut(g, "\n")
+		s.runnable = strings.Contains(head, "[running") || strings.Contains(head, "[runnable")
+		var fr []string
+		for _, l := range strings.Split(g, "\n")[1:] {
+			if strings.HasPrefix(l, "\t") || !strings.Contains(l, "(") {
+				continue
+			}
+			if (strings.HasPrefix(l, "os.(*File).Read(") || strings.HasPrefix(l, "internal/poll.(*FD).Read(")) && c13ZeroLenArg.MatchString(l) {
+				s.zeroRead = true
+			}
+			if name := strings.TrimSpace(l[:strings.LastIndex(l, "(")]); !strings.HasPrefix(name, "runtime.") && len(fr) < 6 {
+				fr = append(fr, name)
+			}
+		}
+		s.frames = strings.Join(fr, " < ")
+		break
 	}
 	if ents, err := os.ReadDir("/proc/self/fd"); err == nil {
 		for _, e := range ents {
@@ -634,25 +647,34 @@ func c13Sample(target string) c13SpinSample {
 const (
 	c13FirstSampleAfter = 150 * time.Millisecond
 	c13SampleEvery      = 60 * time.Millisecond
-	c13SoftDeadline     = 20 * time.Second  // the "generous deadline" of the design
 	c13HardDeadline     = 150 * time.Second // harness gives up: inconclusive, never a violation
 )
 
+// c13NoProgress says whether between two samples the call made no progress
+// while consuming CPU: the goroutine is inside ctlog.compareFile and
+// running/runnable (not blocked) in both, the offset of the descriptor open on
+// the target did not move, and the process burned CPU time or issued reads.
+func c13NoProgress(a, b c13SpinSample) bool {
+	if !(a.inCompare && b.inCompare && a.runnable && b.runnable && a.fd >= 0 && a.fd == b.fd && a.pos == b.pos) {
+		return false
+	}
+	return b.cpu-a.cpu >= 10*time.Millisecond || (a.syscr >= 0 && b.syscr-a.syscr >= 200)
+}
+
 // c13Call runs one backend call in its own goroutine. It returns the call's
 // result, or a *c13Hang if the call did not return AND was confirmed to be
-// spinning without progress: the goroutine is inside ctlog.compareFile in two
-// consecutive samples, the offset of the descriptor open on the target file
-// did not move between them, and meanwhile the process kept issuing read
-// system calls (or burning CPU where /proc/self/io is not available). Elapsed
-// time alone never produces a verdict; a call that is merely slow ends as
-// inconclusive after c13HardDeadline.
+// spinning without progress over three consecutive samples (see
+// c13NoProgress). Elapsed time alone never produces a verdict; a call that is
+// merely slow or blocked ends as inconclusive after c13HardDeadline. A
+// spinning goroutine cannot be stopped from outside (a zero-length os.File.Read
+// does not even enter the kernel); it is abandoned.
 func c13Call(target string, f func() ([]byte, error)) (c13Ret, *c13Hang, error) {
 	ch := make(chan c13Ret, 1)
 	go c13CallTrampoline(f, ch)
 	timer := time.NewTimer(c13FirstSampleAfter)
 	defer timer.Stop()
 	start := time.Now()
-	var prev *c13SpinSample
+	var hist []c13SpinSample
 	for {
 		select {
 		case r := <-ch:
@@ -660,30 +682,17 @@ func c13Call(target string, f func() ([]byte, error)) (c13Ret, *c13Hang, error) 
 		case <-timer.C:
 		}
 		s := c13Sample(target)
-		if prev != nil && prev.inCompare && s.inCompare && s.fd >= 0 && s.fd == prev.fd && s.pos == prev.pos {
-			reads := s.syscr - prev.syscr
-			spinning := (prev.syscr >= 0 && reads >= 200) || (prev.syscr < 0 && s.cpu-prev.cpu >= 30*time.Millisecond)
-			if spinning {
-				h := &c13Hang{where: "ctlog.compareFile", evidence: fmt.Sprintf(
-					"two stack samples %v apart both in [%s]; offset of fd %d on the object stayed at %d while the process issued %d read system calls (cpu +%v)",
-					c13SampleEvery, s.frames, s.fd, s.pos, reads, (s.cpu - prev.cpu).Round(time.Millisecond))}
-				// Best effort: make the spinning Read fail so that the goroutine
-				// ends (atomically replace its descriptor by one open on a
-				// directory: read(2) then returns EISDIR).
-				if dfd, err := syscall.Open("/", syscall.O_RDONLY|syscall.O_DIRECTORY|syscall.O_CLOEXEC, 0); err == nil {
-					if err := syscall.Dup3(dfd, s.fd, syscall.O_CLOEXEC); err == nil {
-						select {
-						case <-ch:
-							h.killed = true
-						case <-time.After(3 * time.Second):
-						}
-					}
-					syscall.Close(dfd)
-				}
-				return c13Ret{}, h, nil
+		hist = append(hist, s)
+		if n := len(hist); n >= 3 && c13NoProgress(hist[n-3], hist[n-2]) && c13NoProgress(hist[n-2], hist[n-1]) {
+			a := hist[n-3]
+			zr := ""
+			if s.zeroRead {
+				zr = "; the stack shows os.(*File).Read called with a zero-length buffer"
 			}
+			return c13Ret{}, &c13Hang{where: "ctlog.compareFile", evidence: fmt.Sprintf(
+				"3 stack samples over %v all running in [%s]; offset of fd %d on the object stayed at %d while the process burned %v of CPU and issued %d read system calls%s",
+				s.at.Sub(a.at).Round(time.Millisecond), s.frames, s.fd, s.pos, (s.cpu - a.cpu).Round(time.Millisecond), s.syscr-a.syscr, zr)}, nil
 		}
-		prev = &s
 		if el := time.Since(start); el > c13HardDeadline {
 			return c13Ret{}, nil, fmt.Errorf("backend call still running after %v but not confirmed to be spinning (last stack: %s)", el.Round(time.Second), s.frames)
 		}
@@ -691,13 +700,44 @@ func c13Call(target string, f func() ([]byte, error)) (c13Ret, *c13Hang, error) 
 	}
 }
 
+// c13HangMemo remembers, per call shape, a hang confirmed earlier in this
+// process. The abandoned goroutine of a confirmed hang burns a core for the
+// rest of the process, so the same deterministic call shape (immutable upload
+// of empty bytes onto an existing path) is not executed again while rapid
+// shrinks and replays the failing case: the memoised verdict is reported.
+var c13HangMemo sync.Map
+
+func c13HangShape(data []byte, imm bool, exists bool) string {
+	if imm && len(data) == 0 && exists {
+		return "immutable-upload-of-empty-bytes-onto-existing-path"
+	}
+	return ""
+}
+
+// c13HangMessage is deterministic (rapid requires identical messages when it
+// replays a failing case); the measured evidence goes to the test log.
 func c13HangMessage(op string, existing *c13Obj, h *c13Hang) string {
-	ex := "no existing object"
+	ex := "an existing path"
 	if existing != nil {
 		ex = fmt.Sprintf("existing object of len=%d immutable=%v", len(existing.data), existing.immutable)
 	}
-	return fmt.Sprintf("C13-HANG: %s onto %s did not return: goroutine confirmed spinning in %s (%s; goroutine stopped by harness=%v). Expected: the call returns (nil for identical bytes, an error for different bytes).",
-		op, ex, h.where, h.evidence, h.killed)
+	return fmt.Sprintf("C13-HANG: %s onto %s did not return: goroutine confirmed spinning in %s. Expected: the call returns (nil for identical bytes, an error for different bytes).",
+		op, ex, h.where)
+}
+
+var c13ZeroLenArg = regexp.MustCompile(`, \{0x[0-9a-f]+\??, 0x0\??, 0x0\??\}\)`)
+
+var c13TempDigits = regexp.MustCompile(`(/|")(\.[^/\s:"]+?)\d+\b`)
+
+// c13Det makes a failure message independent of the run: temporary directory
+// names and the random suffixes of temporary file names are masked.
+func c13Det(msg string, dirs ...string) string {
+	for i, d := range dirs {
+		if d != "" {
+			msg = strings.ReplaceAll(msg, d, fmt.Sprintf("<dir%d>", i))
+		}
+	}
+	return c13TempDigits.ReplaceAllString(msg, "${1}${2}#")
 }
 
 func c13UploadDesc(key string, n int, imm bool) string {
